@@ -487,6 +487,9 @@ func (eval Evaluator) SetScale(ct *rlwe.Ciphertext, scale rlwe.Scale) (err error
 	if err = eval.Mul(ct, &ratioFlo, ct); err != nil {
 		return fmt.Errorf("cannot SetScale: %w", err)
 	}
+	// Mul recorded the product value*ratio at scale ct.Scale (times the primes it scaled the constant by):
+	// the same ciphertext holds the original value at that scale times ratio, which RescaleTo brings back to scale.
+	ct.Scale = ct.Scale.Mul(rlwe.NewScale(&ratioFlo))
 	if err = eval.RescaleTo(ct, scale, ct); err != nil {
 		return fmt.Errorf("cannot SetScale: %w", err)
 	}
